@@ -1276,7 +1276,14 @@ class Bits:
 
         new_slice = bitstring.bitstore.offset_slice_indices_lsb0(slice(start, end, None), len(self))
         msb0_start, msb0_end = self._validate_slice(new_slice.start, new_slice.stop)
-        p = self._rfind_msb0(bs, msb0_start, msb0_end, bytealigned)
+        if bytealigned:
+            # The byte alignment refers to the LSB0 position, so check each candidate in turn.
+            for p in self._bitstore.rfindall_msb0(bs._bitstore, msb0_start, msb0_end, False):
+                lsb0_pos = len(self) - p - len(bs)
+                if lsb0_pos % 8 == 0:
+                    return (lsb0_pos,)
+            return ()
+        p = self._rfind_msb0(bs, msb0_start, msb0_end, False)
 
         if p:
             return (len(self) - p[0] - len(bs),)
@@ -1333,29 +1340,16 @@ class Bits:
         new_slice = bitstring.bitstore.offset_slice_indices_lsb0(slice(start, end, None), len(self))
         msb0_start, msb0_end = self._validate_slice(new_slice.start, new_slice.stop)
 
-        # Search chunks starting near the end and then moving back.
+        # Search backwards in MSB0 terms, which gives increasing LSB0 positions.
         c = 0
-        increment = max(8192, len(bs) * 80)
-        buffersize = min(increment + len(bs), msb0_end - msb0_start)
-        pos = max(msb0_start, msb0_end - buffersize)
-        while True:
-            found = list(self._findall_msb0(bs, start=pos, end=pos + buffersize, count=None, bytealigned=False))
-            if not found:
-                if pos == msb0_start:
-                    return
-                pos = max(msb0_start, pos - increment)
-                continue
-            while found:
-                if count is not None and c >= count:
-                    return
-                c += 1
-                lsb0_pos = len(self) - found.pop() - len(bs)
-                if not bytealigned or lsb0_pos % 8 == 0:
-                    yield lsb0_pos
-
-            pos = max(msb0_start, pos - increment)
-            if pos == msb0_start:
+        for p in self._bitstore.rfindall_msb0(bs._bitstore, msb0_start, msb0_end, False):
+            if count is not None and c >= count:
                 return
+            lsb0_pos = len(self) - p - len(bs)
+            # The byte alignment refers to the LSB0 position.
+            if not bytealigned or lsb0_pos % 8 == 0:
+                c += 1
+                yield lsb0_pos
 
     def rfind(self, bs: BitsType, /, start: Optional[int] = None, end: Optional[int] = None,
               bytealigned: Optional[bool] = None) -> Union[Tuple[int], Tuple[()]]:
@@ -1396,7 +1390,14 @@ class Bits:
         new_slice = bitstring.bitstore.offset_slice_indices_lsb0(slice(start, end, None), len(self))
         msb0_start, msb0_end = self._validate_slice(new_slice.start, new_slice.stop)
 
-        p = self._find_msb0(bs, msb0_start, msb0_end, bytealigned)
+        if bytealigned:
+            # The byte alignment refers to the LSB0 position, so check each candidate in turn.
+            for p in self._bitstore.findall_msb0(bs._bitstore, msb0_start, msb0_end, False):
+                lsb0_pos = len(self) - p - len(bs)
+                if lsb0_pos % 8 == 0:
+                    return (lsb0_pos,)
+            return ()
+        p = self._find_msb0(bs, msb0_start, msb0_end, False)
         if p:
             return (len(self) - p[0] - len(bs),)
         else:
